@@ -13,6 +13,7 @@ from typing import List
 from typing import Mapping
 from typing import MutableMapping
 from typing import MutableSequence
+from typing import Sequence
 from typing import TypeVar
 from typing import Union
 
@@ -46,6 +47,27 @@ def _array_index(part: Union[int, str]) -> int:
         return int(part)
     except ValueError as err:
         raise JSONPatchError(f"invalid array index {part!r}") from err
+
+
+def _json_equal(a: object, b: object) -> bool:
+    """JSON equality as per RFC 6902 section 4.6.
+
+    Python's `==` says `True == 1` and `False == 0`, at any depth.
+    """
+    if isinstance(a, bool) or isinstance(b, bool):
+        return isinstance(a, bool) and isinstance(b, bool) and a == b
+    if isinstance(a, Mapping) and isinstance(b, Mapping):
+        return len(a) == len(b) and all(
+            k in b and _json_equal(v, b[k]) for k, v in a.items()
+        )
+    if (
+        isinstance(a, Sequence)
+        and isinstance(b, Sequence)
+        and not isinstance(a, str)
+        and not isinstance(b, str)
+    ):
+        return len(a) == len(b) and all(_json_equal(x, y) for x, y in zip(a, b))
+    return a == b
 
 
 class Op(ABC):
@@ -346,7 +368,7 @@ class OpTest(Op):
     ) -> Union[MutableSequence[object], MutableMapping[str, object]]:
         """Apply this patch operation to _data_."""
         _, obj = self.path.resolve_parent(data)
-        if not obj == self.value:
+        if not _json_equal(obj, self.value):
             raise JSONPatchTestFailure
         return data
 
